@@ -73,6 +73,7 @@ fn backend<B: Backend, P: Prims>(opts: &Opts, rep: &mut Report) {
                 continue;
             }
             let mut rng = Rng::derive(opts.seed, &stream, idx);
+            crate::noise::sprinkle::<B>();
             let key_raw = gen_wrapped_key::<B>(kind, &mut rng);
             let hdr = kind.header(B::VER);
             let mut s = Secrets::blank();
@@ -225,6 +226,7 @@ fn pbkw_sequences<B: Backend, P: Prims>(opts: &Opts, rep: &mut Report) {
             continue;
         }
         let mut rng = Rng::derive(opts.seed, &stream, idx);
+        crate::noise::sprinkle::<B>();
         let kind = if rng.chance(1, 2) { Wk::PwLocal } else { Wk::PwSecret };
         let hdr = kind.header(B::VER);
         let key_raw = gen_wrapped_key::<B>(kind, &mut rng);
@@ -293,6 +295,7 @@ fn password_lengths<B: Backend, P: Prims>(opts: &Opts, rep: &mut Report) {
                 continue;
             }
             let mut rng = Rng::derive(opts.seed, &stream, idx);
+            crate::noise::sprinkle::<B>();
             let hdr = kind.header(B::VER);
             let key_raw = gen_wrapped_key::<B>(kind, &mut rng);
             let pass = match plen % 3 {
@@ -351,6 +354,7 @@ fn siblings<A: Backend, B: Backend>(opts: &Opts, rep: &mut Report) {
                 continue;
             }
             let mut rng = Rng::derive(opts.seed, &stream, idx);
+            crate::noise::sprinkle::<B>();
             let key_raw = gen_wrapped_key::<A>(kind, &mut rng);
             let mut s = Secrets::gen_for::<A>(&mut rng);
             let params = pw_param_grid(A::VER, &mut rng);
